@@ -1246,6 +1246,72 @@ func Eval(t *Term, env map[string]uint64, memo map[*Term]uint64) uint64 {
 		} else {
 			r = b2u(math.IsNaN(f64(ev(t.a))))
 		}
+	case OpFToF:
+		if t.w == 64 {
+			r = math.Float64bits(float64(f32(ev(t.a))))
+		} else {
+			r = uint64(math.Float32bits(float32(f64(ev(t.a)))))
+		}
+	case OpFToSInt, OpFToUInt:
+		var f float64
+		if t.a.w == 32 {
+			f = float64(f32(ev(t.a)))
+		} else {
+			f = f64(ev(t.a))
+		}
+		if t.op == OpFToSInt {
+			r = uint64(int64(f))
+		} else {
+			r = uint64(f)
+		}
+	case OpSIntToF, OpUIntToF:
+		var f float64
+		if t.op == OpSIntToF {
+			f = float64(signExt(ev(t.a), t.a.w))
+		} else {
+			f = float64(ev(t.a))
+		}
+		if t.w == 32 {
+			if t.op == OpSIntToF {
+				r = uint64(math.Float32bits(float32(signExt(ev(t.a), t.a.w))))
+			} else {
+				r = uint64(math.Float32bits(float32(ev(t.a))))
+			}
+		} else {
+			r = math.Float64bits(f)
+		}
+	case OpFNeg:
+		r = ev(t.a) ^ (uint64(1) << (t.w - 1))
+	case OpFArith:
+		if t.w == 32 {
+			x, y := f32(ev(t.a)), f32(ev(t.b))
+			var z float32
+			switch t.val {
+			case '+':
+				z = x + y
+			case '-':
+				z = x - y
+			case '*':
+				z = x * y
+			default:
+				z = x / y
+			}
+			r = uint64(math.Float32bits(z))
+		} else {
+			x, y := f64(ev(t.a)), f64(ev(t.b))
+			var z float64
+			switch t.val {
+			case '+':
+				z = x + y
+			case '-':
+				z = x - y
+			case '*':
+				z = x * y
+			default:
+				z = x / y
+			}
+			r = math.Float64bits(z)
+		}
 	default:
 		panic(fmt.Sprintf("Eval: unsupported op %d", t.op))
 	}
